@@ -757,7 +757,35 @@ def pbkdf2_hmac(digest: bytes, secret: bytes, salt: bytes, rounds: int, keylen=N
     # resolve digest
     digest_info = lookup_hash(digest)
 
+    try:
+        hashlib.new(digest_info.name)
+    except ValueError:
+        # digest is provided by passlib itself (e.g. md4 where openssl lacks it),
+        # hashlib's pbkdf2 can't be used.
+        return _pbkdf2_hmac_builtin(digest_info, secret, salt, rounds, keylen)
+
     return hashlib.pbkdf2_hmac(digest_info.name, secret, salt, rounds, keylen)
+
+
+def _pbkdf2_hmac_builtin(digest_info, secret, salt, rounds, keylen):
+    """pure-python pbkdf2 (rfc 2898), for digests hashlib.pbkdf2_hmac() doesn't offer"""
+    if rounds < 1:
+        raise ValueError("rounds must be at least 1")
+    digest_size = digest_info.digest_size
+    if keylen is None:
+        keylen = digest_size
+    elif keylen < 1:
+        raise ValueError("keylen must be at least 1")
+    keyed_hmac = compile_hmac(digest_info.name, secret)
+    result = b""
+    for idx in range(1, -(-keylen // digest_size) + 1):
+        block = keyed_hmac(salt + idx.to_bytes(4, "big"))
+        accum = int.from_bytes(block, "big")
+        for _ in range(rounds - 1):
+            block = keyed_hmac(block)
+            accum ^= int.from_bytes(block, "big")
+        result += accum.to_bytes(digest_size, "big")
+    return result[:keylen]
 
 
 PBKDF2_BACKENDS = [
